@@ -797,9 +797,9 @@ def build_cases(tier):
 
 
 META = dict(
-    bounds={"quick": "protocols of 3-4 messages (config, initial values, 1-2 evaluations or a child error); the child dies after any number of exchanged messages with return code 1, -9 or 3, or never; the callback raises (its own exception, or ropt's OptimizationAborted) at any evaluation or never; 0-2 failed writes and 0-1 empty reads per message",
+    bounds={"quick": "protocols of 3-4 messages (config, initial values, 1-2 evaluations or a child error); the child dies after any number of exchanged messages with return code 1, -9 or 3, or never; the callback raises (its own exception, or ropt's OptimizationAborted) at any evaluation or never; an answer that cannot be sent; loopback of both real protocol halves with scripted algorithms (1-3 requests, single points and batches, symbolic points, values and NaN flags, aborts and algorithm errors); messages of 100-300 bytes through a FIFO of 16..256 bytes; configuration dumps through the real encoder; 0-2 failed writes and 0-1 empty reads per message",
             "thorough": "4 evaluations",
-            "outside": "trace equality with in-process runs; real FIFOs, signals and timing; hangs beyond 400 polls"},
+            "outside": "trace equality for real SciPy algorithms (the loopback runs scripted algorithms); the kernel's FIFO and signal delivery (a FIFO pair is modelled by a byte buffer of symbolic capacity); timing; hangs beyond the bounded number of polls"},
     stubs=["PipeCase: os.open/write/fdopen/dup/close and selectors model a non-blocking FIFO pair of symbolic capacity (16..256 bytes); os.write takes what fits and says how much", "subprocess.Popen / process.poll / wait: follow the symbolic life schedule", "_JSONPipeCommunicator: read() hands out the scripted protocol messages, write() succeeds after a symbolic number of failures",
            "os.kill (ProcessLookupError when the child is dead), time.sleep, atexit.register"],
     assumptions=["the child follows ropt's own protocol (_PluginOptimizer): it waits for an answer to each request, exits 0 after a normal run or an abort, 1 after reporting an error"],
